@@ -2,6 +2,7 @@ package main
 
 import (
 	"fmt"
+	"sort"
 
 	"github.com/Yiling-J/theine-go/internal"
 	"verifsim/simrt"
@@ -101,6 +102,10 @@ func genC11(g *gen, tier string) *Scenario {
 	sc.Params["target"] = target
 	sc.Params["gap"] = pick(g, int64(0), int64(g.rng(1, 5000))*ms, int64(g.rng(5, 200))*sec, int64(g.rng(1, 100))*3600*sec)
 	sc.Params["chunk"] = int64(pick(g, 0, 1, 5, 64, 4096))
+	if ttlPct > 0 && g.pct(30) {
+		sc.Params["gapnear"] = 1
+		sc.Params["gapbefore"] = int64(g.rng(1, 950)) * ms
+	}
 	sc.Epilogue = []Op{{Kind: "waitidle"}, {Kind: "wait"}, {Kind: "waitidle"}, {Kind: "xsaveload"}}
 	return sc
 }
@@ -141,7 +146,21 @@ func setupC11(env *simEnv) {
 			rd.violate("C11/save-failed", err.Error())
 			return
 		}
-		if gap := rd.Sc.Params["gap"]; gap > 0 {
+		gap := rd.Sc.Params["gap"]
+		if rd.Sc.Params["gapnear"] == 1 {
+			// restart shortly before the earliest saved deadline
+			var first int64
+			for _, e := range saved {
+				if e.wall != 0 && (first == 0 || e.wall < first) {
+					first = e.wall
+				}
+			}
+			if d := first - (simEpochNanos + simrt.Now()) - rd.Sc.Params["gapbefore"]; first != 0 && d > 0 {
+				gap = d
+				probe("c11.restart-just-before-a-deadline")
+			}
+		}
+		if gap > 0 {
 			simrt.AdvanceTime(gap)
 			simrt.Fault("restart.gap")
 		}
@@ -271,6 +290,37 @@ func setupC11(env *simEnv) {
 		}
 		probeN("c11.saved-entries", len(saved))
 		probeN("c11.restored-entries", len(loaded))
+		// a restored entry obeys its restored deadline: read the entries that are about to
+		// expire, shortly after their deadlines (before or after the new cache's first tick)
+		type due struct {
+			k    int
+			wall int64
+		}
+		var dues []due
+		nowWall := simEpochNanos + simrt.Now()
+		for k, e := range loaded {
+			if e.wall != 0 && e.wall > nowWall && e.wall-nowWall < 5*sec {
+				dues = append(dues, due{k, e.wall})
+			}
+		}
+		sort.Slice(dues, func(i, j int) bool {
+			return dues[i].wall < dues[j].wall || dues[i].wall == dues[j].wall && dues[i].k < dues[j].k
+		})
+		if len(dues) > 4 {
+			dues = dues[:4]
+		}
+		for _, d := range dues {
+			after := int64(simrt.MiscRng().Intn(1200)) * ms
+			if wait := d.wall + after - (simEpochNanos + simrt.Now()); wait > 0 {
+				simrt.Sleep(wait)
+			}
+			inv := simEpochNanos + simrt.Now()
+			v, ok, _ := api2.get(d.k)
+			probe("c11.read-of-restored-entry-after-its-deadline")
+			if ok && inv >= d.wall && v == loaded[d.k].v { // (a loading cache answers with a freshly loaded value: fine)
+				rd.violate("C11/restored-entry-served-after-deadline/"+fam, fmt.Sprintf("key %d was restored with wall-clock deadline %d; a Get invoked %.3fs after that deadline (%.3fs after LoadCache returned) returned value %d", d.k, d.wall, float64(inv-d.wall)/1e9, float64(inv-wall1)/1e9, v))
+			}
+		}
 		api2.store.Close()
 	}
 }
